@@ -5,7 +5,7 @@ import ast
 from typing import Dict, List, Optional, Set
 
 from .. import flow
-from ..core import (AnalysisError, Module, Repo, call_attr, call_name, calls_in, func_params, norm, parent, qualname, short)
+from ..core import (AnalysisError, Module, Repo, call_attr, call_name, calls_in, func_params, get_kw, norm, parent, qualname, short)
 from ..report import Ctx
 
 RELABEL = "graphiq/utils/relabel_module.py"
@@ -331,3 +331,50 @@ def rule_distinct_sources(ctx: Ctx) -> None:
                              construct=f"{f.name}: duplicate test against part of {norm(ap.func.value)}")
     if sites == 0:
         raise AnalysisError("relabel_module: no check_isomorphism-guarded append found")
+
+
+# --------------------------------------------------------------------------- cmp.labelled-graphs
+
+
+def rule_labelled_equality(ctx: Ctx) -> None:
+    """cmp.labelled-graphs: the explorers' "is this graph already in the list" test for labelled graphs (_equal_graphs) compares the two
+    adjacency *structures* entry by entry in one common node order.  nx.utils.graphs_equal also compares edge attributes (every graph
+    produced by local_comp_graph carries weight=1.0, an nx.path_graph does not), nx.is_isomorphic forgets the labels, and two
+    nx.to_numpy_array calls without a common nodelist put each graph in its own insertion order."""
+    repo = ctx.repo
+    m = repo.module(RELABEL)
+    fn = repo.anchor(RELABEL, "_equal_graphs")
+    ctx.touch(m, fn)
+    g1, g2 = func_params(fn)[:2]
+    bad = [c for c in calls_in(fn) if (call_name(c) or "").split(".")[-1] in ("graphs_equal", "is_isomorphic", "could_be_isomorphic")]
+    if bad:
+        which = (call_name(bad[0]) or "").split(".")[-1]
+        ctx.fail("cmp.labelled-graphs", m, bad[0],
+                 f"_equal_graphs decides equality with `{short(bad[0])}`: " +
+                 ("that also compares edge attribute dictionaries, and every output of local_comp_graph carries weight=1.0 while a plain input graph "
+                  "does not, so a walk that returns to the input graph is not recognised and the input is listed twice"
+                  if which == "graphs_equal" else "that ignores the labels, so different labelled graphs of one isomorphism class are merged"),
+                 func="_equal_graphs", construct=f"_equal_graphs: {which}")
+        return
+    arrs = [c for c in calls_in(fn) if (call_name(c) or "").split(".")[-1] in ("to_numpy_array", "adjacency_matrix", "to_numpy_matrix")]
+    if len(arrs) != 2:
+        raise AnalysisError("_equal_graphs: the two adjacency matrices were not found")
+    lists = [get_kw(c, "nodelist") for c in arrs]
+    defs = {a.targets[0].id: a.value for a in ast.walk(fn) if isinstance(a, ast.Assign) and len(a.targets) == 1 and isinstance(a.targets[0], ast.Name)}
+
+    def canon(e):
+        if e is None:
+            return None
+        if isinstance(e, ast.Name) and e.id in defs:
+            e = defs[e.id]
+        return norm(e)
+    c1, c2 = canon(lists[0]), canon(lists[1])
+    same_order = c1 is not None and c1 == c2
+    sorted_each = c1 is not None and c2 is not None and c1.startswith("sorted(") and c2.startswith("sorted(")
+    if same_order or sorted_each:
+        ctx.ok("cmp.labelled-graphs", m, arrs[0], what="both adjacency matrices in one common node order")
+    else:
+        ctx.fail("cmp.labelled-graphs", m, arrs[1],
+                 "_equal_graphs builds the two adjacency matrices without a common nodelist: each graph is laid out in its own insertion order, while "
+                 "local_comp_graph returns its graphs in sorted node order — an input whose nodes were not added in sorted order is never recognised "
+                 "again and is listed twice", func="_equal_graphs", construct="_equal_graphs: no common node order")
